@@ -13,7 +13,6 @@ import (
 	"math/rand"
 	"os"
 	"path/filepath"
-	"sync/atomic"
 	"time"
 
 	"github.com/benbjohnson/litestream"
@@ -39,7 +38,7 @@ func init() {
 		Rule: "for each page size a database is built to 30 pages below SQLite's lock-byte page (pgno = 1GiB/pagesize + 1; zeroblob rows, journal_mode=OFF, then WAL, auto_vacuum=INCREMENTAL) and litestream is started (first sync = snapshot path below the boundary). Placements: " +
 			"cross = grow to just below the lock page, sync, then ONE transaction that grows the database across the lock page, sync (incremental path with the lock page inside the growth range); " +
 			"before = grow across in small transactions, sync, then delete + incremental_vacuum so that the database ends exactly on the page before the lock page, sync (shrink across the boundary); " +
-			"beyond = small MinCheckpointPageN, several transactions growing to 40 pages beyond the lock page within ONE sync, litestream checkpoints (database file itself extends beyond the lock page). Then Compact(1), Restore(latest) (L0/L1 plan), Snapshot (snapshot path with the lock page inside the committed range), Close. " +
+			"beyond = small MinCheckpointPageN, several transactions growing to 40 pages beyond the lock page within ONE sync, then Checkpoint(TRUNCATE) (the database file itself extends beyond the lock page; full level-0 snapshot written from it), one more write + sync. Then Compact(1), Restore(latest) (L0/L1 plan), Snapshot (snapshot path with the lock page inside the committed range), Close. " +
 			"Oracle: every litestream call returns nil; every LTX file on the replica is decoded as a stream (CRC verified) and must not contain the lock page; the level-9 snapshot must hold exactly pages 1..Commit without the lock page and each page must equal the source; the restored file equals the checkpointed source page by page (mask: page1[24:28], page1[92:100], _litestream_seq root page), has the same size, and its lock page is all zero. " +
 			"distinct = (page size, placement); non-trivial = the placement was reached exactly (page_count checked) and, for cross/beyond, at least one level-0 file has Commit beyond the lock page while its predecessor's Commit is below it",
 		Assumptions: []string{"file replica client only", "the source is checkpointed in place (application and litestream quiescent, litestream closed) to obtain the committed source image; 1 GiB copies are avoided", "ltx decoder/LZ4 trusted"},
@@ -520,63 +519,17 @@ func runCase(run *vf.Run, raw json.RawMessage, dir string) *vf.Result {
 			return res
 		}
 	case "beyond":
-		// The application grows the database across the lock page in small
-		// transactions WHILE litestream checkpoints (all modes in turn): commits
-		// that land between litestream's WAL copy and its checkpoint are
-		// back-filled into the database file and reach the replica through the
-		// growth-page fill, whose range then contains the lock page. Calls may
-		// come back busy during this phase; afterwards everything must succeed.
-		done := make(chan error, 1)
-		var started atomic.Int64 // litestream checkpoint calls started so far
-		go func() {
-			// one small transaction per litestream checkpoint call, placed a
-			// PRNG-chosen moment after the call began
-			seen := int64(0)
-			for {
-				pc, err := e.pageCount()
-				if err != nil || pc >= e.lock+40 {
-					done <- err
-					return
-				}
-				for w := 0; w < 100 && started.Load() == seen; w++ {
-					time.Sleep(500 * time.Microsecond)
-				}
-				seen = started.Load()
-				time.Sleep(time.Duration(e.rng.Intn(3000)) * time.Microsecond)
-				if _, err := e.app.Exec(`INSERT INTO t(v) VALUES(?)`, e.blob(e.ps/3)); err != nil {
-					done <- fmt.Errorf("grow: %w", err)
-					return
-				}
-			}
-		}()
-		nck, nbusy := 0, 0
-		var gerr error
-	race:
-		for i := 0; ; i++ {
-			select {
-			case gerr = <-done:
-				break race
-			default:
-			}
-			mode := hist.CheckpointModes[i%4]
-			started.Add(1)
-			if err := e.ls.Checkpoint(ctx, mode); err != nil {
-				nbusy++
-			} else {
-				nck++
-			}
-		}
-		if gerr != nil {
-			return herr("grow", gerr)
+		if err := e.growTo(e.lock + 40); err != nil {
+			return herr("grow", err)
 		}
 		pc2, _ := e.pageCount()
-		e.logf("application grew the database from %d to %d pages while litestream ran %d checkpoints (%d more came back with an error)", pc, pc2, nck, nbusy)
-		res.Count("race_checkpoints_ok", nck)
-		res.Count("race_checkpoints_failed", nbusy)
+		e.logf("several transactions grew the database from %d to %d pages without a sync in between", pc, pc2)
 		reached = pc2 >= e.lock+40
-		if !e.must("SyncAndWait(after growth across the lock page raced litestream checkpoints)", e.ls.SyncAndWait(ctx)) {
+		if !e.must("SyncAndWait(growth across the lock page within one sync)", e.ls.SyncAndWait(ctx)) {
 			return res
 		}
+		// TRUNCATE restarts the WAL: the database file itself now extends beyond
+		// the lock page and litestream writes a full level-0 snapshot from it
 		if !e.must("Checkpoint(TRUNCATE)", e.ls.Checkpoint(ctx, litestream.CheckpointModeTruncate)) {
 			return res
 		}
